@@ -86,6 +86,7 @@ const (
 	FSharedPath   = "shared_path_across_verbs"
 	FSharedReq    = "request_message_shared_by_two_methods"
 	FTrailingSlash = "path_with_trailing_slash"
+	FQueryCard    = "query_repeated_or_optional"
 	FInt64Number  = "ann_int64_number"
 	FEnumValue    = "ann_enum_value"
 	FEnumNumber   = "ann_enum_number"
@@ -115,6 +116,9 @@ const (
 var SafeFeatures = []string{FBasePath, FPathVars, FQuery, FQueryOnBody, FHeadersSvc, FHeadersMeth, FHeaderOverride, FNested, FRecursive,
 	FEnum, FMap, FOneof, FOptional, FRepeated, FTimestamp, FBytes, FRules, FCustomError, FAllKinds, FMultiService, FNameShapes, FSharedPath, FSharedReq}
 
+// LateFeatures are drawn from the side stream.
+var LateFeatures = []string{FQueryCard}
+
 var AnnotationFeatures = []string{FInt64Number, FEnumValue, FEnumNumber, FNullable, FEmptyBehav, FTsFormat, FBytesEnc, FFlatten, FOneofDisc, FUnwrap}
 
 var pathKinds = []string{"string", "string", "string", "int32", "int64", "uint32", "uint64", "bool", "float", "double", "sint32", "sint64", "fixed32", "fixed64", "sfixed32", "sfixed64"}
@@ -129,6 +133,7 @@ var fieldWordsShaped = []string{"user_id", "item_name", "f1", "x2_y", "page_size
 
 type g struct {
 	r    *rng
+	r2   *rng // side stream for features added later (keeps earlier worlds unchanged)
 	cfg  Config
 	on   map[string]bool
 	w    *spec.World
@@ -210,9 +215,15 @@ func World(cfg Config) *spec.World {
 		}
 		sort.Strings(extra)
 		for _, f := range extra {
-			if !contains(pool, f) && x.r.chance(1, 2) {
+			if !contains(pool, f) && !contains(LateFeatures, f) && x.r.chance(1, 2) {
 				x.on[f] = true
 			}
+		}
+	}
+	x.r2 = &rng{s: Mix(cfg.Seed, 0x51de)}
+	for _, f := range LateFeatures {
+		if (cfg.Allow == nil || cfg.Allow[f]) && x.r2.chance(1, 2) {
+			x.on[f] = true
 		}
 	}
 	for _, f := range cfg.Force {
@@ -735,6 +746,14 @@ func (x *g) method(s *spec.Service, name string, idx int, usedRoutes map[string]
 			}
 			if x.has(ROptionalQuery) && i == 0 {
 				f.Card = "optional"
+			}
+			if x.has(FQueryCard) && f.Card == "" && !f.Query.Required {
+				switch x.r2.intn(4) {
+				case 0:
+					f.Card = "repeated"
+				case 1:
+					f.Card = "optional"
+				}
 			}
 			req.Fields = append(req.Fields, f)
 		}
